@@ -50,19 +50,22 @@ v(B + "unlikely", "contract", ["C11"], "src/bumping.rs::unlikely", _BT, "r == co
 # ---- src/chunk/size.rs: the typed layer over ChunkSizeConfig (unbounded, every A and S)
 Z = "kernel::chunk_size::"
 _ZT = ["h_kernel::k_fresh_chunk_fits"]
-v(Z + "config", "contract", ["C12", "C05", "C10"], "src/chunk/size.rs::config", [], "the configuration of (A, S): up == S::UP, header layout = Layout::new::<ChunkHeader<A>>(), overhead (16, 8); satisfies cfg_valid")
-v(Z + "max", "contract", ["C12"], "src/chunk/size.rs::max", [], "max")
-v(Z + "ChunkSizeHint::new", "contract", ["C12"], "src/chunk/size.rs::ChunkSizeHint::new", [], "stores the hint")
-v(Z + "ChunkSizeHint::calc_size", "contract", ["C12", "C05", "C07"], "src/chunk/size.rs::ChunkSizeHint::calc_size", [],
+_ZA = ["h_kernel3::k_align_allocation_size_zst_up", "h_kernel3::k_align_allocation_size_zst_dn", "h_kernel3::k_align_allocation_size_a64_dn", "h_kernel3::k_align_allocation_size_a64_up"]
+_ZH = ["h_kernel3::k_from_hint_zst_up", "h_kernel3::k_from_hint_a64_dn", "h_kernel3::k_from_hint_a24_dn_min4096"]
+_ZC = ["h_kernel3::k_from_capacity_zst_up", "h_kernel3::k_from_capacity_a64_dn"]
+v(Z + "config", "contract", ["C12", "C05", "C10"], "src/chunk/size.rs::config", _ZA + _ZH, "the configuration of (A, S): up == S::UP, header layout = Layout::new::<ChunkHeader<A>>(), overhead (16, 8); satisfies cfg_valid")
+v(Z + "max", "contract", ["C12"], "src/chunk/size.rs::max", _ZH, "max")
+v(Z + "ChunkSizeHint::new", "contract", ["C12"], "src/chunk/size.rs::ChunkSizeHint::new", _ZH, "stores the hint")
+v(Z + "ChunkSizeHint::calc_size", "contract", ["C12", "C05", "C07"], "src/chunk/size.rs::ChunkSizeHint::calc_size", _ZH,
   "the size calc_size_from_hint prescribes for max(hint, S::MINIMUM_CHUNK_SIZE) under the configuration of (A, S): multiple of 16 (and of the header alignment when downward), >= header, >= hint - 16, None only when it does not fit usize")
-v(Z + "ChunkSizeHint::for_capacity", "contract", ["C12", "C07"], "src/chunk/size.rs::ChunkSizeHint::for_capacity", [], "the hint a capacity request needs (header + padding + bytes + overhead); None iff it exceeds usize")
+v(Z + "ChunkSizeHint::for_capacity", "contract", ["C12", "C07"], "src/chunk/size.rs::ChunkSizeHint::for_capacity", _ZC, "the hint a capacity request needs (header + padding + bytes + overhead); None iff it exceeds usize")
 v(Z + "ChunkSizeHint::max", "contract", ["C12"], "src/chunk/size.rs::ChunkSizeHint::max", [], "the larger hint")
-v(Z + "ChunkSize::from_hint", "contract", ["C12", "C05", "C07"], "src/chunk/size.rs::ChunkSize::from_hint", [], "same as ChunkSizeHint::calc_size")
-v(Z + "ChunkSize::from_capacity", "contract", ["C12", "C07"], "src/chunk/size.rs::ChunkSize::from_capacity", [],
+v(Z + "ChunkSize::from_hint", "contract", ["C12", "C05", "C07"], "src/chunk/size.rs::ChunkSize::from_hint", _ZH, "same as ChunkSizeHint::calc_size")
+v(Z + "ChunkSize::from_capacity", "contract", ["C12", "C07"], "src/chunk/size.rs::ChunkSize::from_capacity", _ZC,
   "a chunk sized for a capacity request is sized for the hint that request needs; None only on overflow")
-v(Z + "ChunkSize::align_allocation_size", "contract", ["C12", "C05", "C10"], "src/chunk/size.rs::ChunkSize::align_allocation_size", [],
+v(Z + "ChunkSize::align_allocation_size", "contract", ["C12", "C05", "C10"], "src/chunk/size.rs::ChunkSize::align_allocation_size", _ZA,
   "the size recorded for a granted block is the granted size rounded DOWN to 16 (and to the header alignment when downward): never more than was granted")
-v(Z + "ChunkSize::layout", "contract", ["C05", "C12"], "src/chunk/size.rs::ChunkSize::layout", [], "Some iff the size fits a Layout of the header alignment; then exactly (size, align_of ChunkHeader<A>)")
+v(Z + "ChunkSize::layout", "contract", ["C05", "C12"], "src/chunk/size.rs::ChunkSize::layout", _ZH, "Some iff the size fits a Layout of the header alignment; then exactly (size, align_of ChunkHeader<A>)")
 
 for f, t in [("c11_up_some", "success upward: aligned, nearest, inside range, new_pos in range, past the block, multiple of min_align"),
              ("c11_up_none", "tight upward: None ==> no aligned block of that size in the range"),
@@ -581,6 +584,24 @@ for _n, _t in (("rev_truncate_to1_up", "to 1, up"), ("rev_truncate_to3_dn", "to 
     k("h_rev::" + _n, ["C08"], ["mut_bump_vec_rev::MutBumpVecRev::truncate"], "B",
       "MutBumpVecRev::truncate keeps the LAST n elements (mirrored, as documented), length and contents checked",
       bound="length 4, %s; allocator = contract stub" % _t, timeout=900)
+
+# ----------------------------------------------------------------------------- full-domain twins of src/chunk/size.rs (h_kernel3.rs)
+_K3 = {
+    "k_config_zst_up": ("ob_config", "A = (), up"), "k_config_a64_dn": ("ob_config", "A 64-aligned, down"), "k_config_a24_dn": ("ob_config", "A 24 bytes, down"),
+    "k_align_allocation_size_zst_up": ("ob_align", "A = (), up"), "k_align_allocation_size_zst_dn": ("ob_align", "A = (), down"),
+    "k_align_allocation_size_a64_dn": ("ob_align", "A 64-aligned, down"), "k_align_allocation_size_a64_up": ("ob_align", "A 64-aligned, up"),
+    "k_from_hint_zst_up": ("ob_from_hint", "A = (), up, minimum 0"), "k_from_hint_a64_dn": ("ob_from_hint", "A 64-aligned, down"),
+    "k_from_hint_a24_dn_min4096": ("ob_from_hint", "A 24 bytes, down, MINIMUM_CHUNK_SIZE 4096"),
+    "k_from_capacity_zst_up": ("ob_from_capacity", "A = (), up"), "k_from_capacity_a64_dn": ("ob_from_capacity", "A 64-aligned, down"),
+}
+_K3T = {
+    "ob_config": (["C12", "C10"], ["chunk::ChunkHeader layout", "chunk::ChunkSizeConfig"], "the header layout of the instantiated allocator type satisfies cfg_valid (align >= 16, size >= 32, multiple of align); overhead layout (16, 8) - the facts the Verus axioms header_layout_axiom / overhead_layout_axiom assume"),
+    "ob_align": (["C05", "C12", "C10"], ["chunk::size::ChunkSize::align_allocation_size"], "every size: result <= size, multiple of 16 (and of the header alignment when downward), less than one alignment step below"),
+    "ob_from_hint": (["C12", "C05", "C07"], ["chunk::size::{ChunkSize::from_hint,ChunkSize::layout,ChunkSizeHint::new,ChunkSizeHint::calc_size}"], "every hint: the size is what calc_size_from_hint prescribes for max(hint, MINIMUM_CHUNK_SIZE) under the configuration of (A, S); None exactly when that overflows; layout() is (size, header alignment)"),
+    "ob_from_capacity": (["C12", "C07"], ["chunk::size::{ChunkSize::from_capacity,ChunkSizeHint::for_capacity}"], "every layout (alignment <= 4096): the chunk is sized for the hint the request needs; None exactly on overflow"),
+}
+for _n, (_g, _i) in _K3.items():
+    k("h_kernel3::" + _n, _K3T[_g][0], _K3T[_g][1], "P-inst", _K3T[_g][2], bound=None, timeout=900, inst=_i)
 
 
 def for_property(pid, tier):
